@@ -39,6 +39,9 @@ CHECKS = {
  "C14": ("exploration", "4 C14", "paired simulated runs: the same recorded stream and chunk/time schedule replayed on fresh loopback drivers under all 8 listen-option sets; outputs compared as projections of the all-options run",
    "A relation between runs that differ only in configuration while the schedule is held fixed by the simulator (the schedule is recorded, not re-drawn).",
    "streams from C04's domain; same SysExBufferSize in all runs"),
+ "C19": ("exploration", "4 C19", "seeded record streams with corrupted lines, delivered through a fragmenting reader with explicit Read schedule (incl. data+EOF); per-physical-line oracle from a reference line parser",
+   "Samples record sequences, corruptions of the named kinds and fragmentation schedules; each call of ReadAndConvert is attributed to the stream bytes it consumed, so 'one record per call', 'never a record from neighbouring lines' and 'self-framing' are checked exactly.",
+   "reference encoder/parser of the '%d %X\\n' format; corrupted lines are classified by the strict reference parser"),
 }
 def main():
     checks = []
@@ -71,7 +74,7 @@ def main():
         "notes": "Exit codes: 0 property held on everything explored, 1 VIOLATION (replay file given), 2 infrastructure trouble (never a VIOLATION). VERIF_SEED selects the seed, VERIF_RUNS overrides the run count.",
     }
     claimed = set(CHECKS)
-    for pid in ["C12","C13","C17","C19"]:
+    for pid in ["C12","C13","C17"]:
         if pid not in claimed:
             m["not_applicable"].append({"property_id": pid, "reason": "claimed in DESIGN.md but its check is not built yet in this commit (work in progress); not a judgement that the technique does not apply"})
     m["not_applicable"].sort(key=lambda x: x["property_id"])
